@@ -63,7 +63,7 @@ class Infeasible(Exception):
 class Arr:
     """Pointful array: a shape and an element function (DESIGN 4.2)."""
 
-    __slots__ = ("shape", "fn", "dtype", "base", "tag", "nviews")
+    __slots__ = ("shape", "fn", "dtype", "base", "tag", "nviews", "flat")
 
     def __init__(self, shape, fn, dtype="real", base=None, tag=None):
         self.shape = tuple(shape)
@@ -72,6 +72,7 @@ class Arr:
         self.base = base      # array this one is a view of (writes through views are refused)
         self.tag = tag
         self.nviews = 0
+        self.flat = None      # optional C-order flat accessor: flat(f) == fn(*unravel(f, shape))
 
     @property
     def ndim(self):
@@ -301,6 +302,7 @@ class Engine:
         self.modules = {}
         self.models = {}
         self.type_models = {}
+        self.externals = {}          # dotted external name -> assumed contract (python callable)
         self.callee_contracts = {}   # qualified name -> python callable(engine, args, kwargs)
         self.loop_specs = {}         # (qualname, k) -> LoopSpec
         from . import npmodel
@@ -495,6 +497,8 @@ class Engine:
     def explore(self, thunk, max_paths=400):
         """Run ``thunk(engine)`` along every feasible path; returns the list of PathOutcome."""
         outcomes = []
+        from . import npmodel as _M
+        _M.CURRENT_ENGINE[0] = self
         self.pending = [[]]
         while self.pending:
             if len(outcomes) >= max_paths:
@@ -507,6 +511,9 @@ class Engine:
             self.obligations = []
             self.call_depth = 0
             self.current_func = []
+            for m_ in self.modules.values():       # module-level state (caches, lazily loaded tables) starts fresh on every path
+                m_.globals_cache.clear()
+                m_.global_overrides.clear()
             T.reset_fresh()
             self.stats["paths"] += 1
             try:
